@@ -492,6 +492,26 @@ pub fn run(ctx: &mut Ctx) {
             force.push("let-subst");
             force_ext = allow_extraction && rng.chance(2, 3);
         }
+        let mut solo = false;
+        if !bad && force.is_empty() && rng.chance(1, 12) {
+            // a binding whose bound variable sits more than thirty levels deep in its body (a right-nested chain of sums and
+            // products): the substitution has to reach it; rewritten with the substitution rule alone
+            let var = |c: u32| ATerm { v: 2, fields: vec![CField::Slot(c)], children: vec![] };
+            let bin = |v: usize, a: ATerm, b: ATerm| ATerm { v, fields: vec![CField::App, CField::App], children: vec![a, b] };
+            let lt = |x: u32, b: ATerm, e: ATerm| ATerm { v: 3, fields: vec![CField::Bind(x, Box::new(CField::App)), CField::App], children: vec![b, e] };
+            let num = |s: &str| ATerm { v: 15, fields: vec![CField::Lit(s.into())], children: vec![] };
+            let (x, a) = (18u32, 4u32);
+            let depth = rng.range(33, 38);
+            let mut body = if rng.chance(1, 2) { var(x) } else { bin(5, var(x), var(a)) };
+            for i in 0..depth {
+                let c = num(if i % 3 == 0 { "1" } else { "2" });
+                body = if rng.chance(1, 2) { bin(4, c, body) } else { bin(5, c, body) };
+            }
+            let value = if rng.chance(1, 2) { var(a) } else { num("3") };
+            start = vec![lt(x, body, value)];
+            force.push("let-subst");
+            solo = true;
+        }
         let n = if bad { BAD_POOL.len() } else { POOL.len() };
         let k = rng.range(2, 9.min(n));
         let mut idx: Vec<usize> = (0..n).collect();
@@ -504,11 +524,14 @@ pub fn run(ctx: &mut Ctx) {
                 }
             }
         }
+        if solo {
+            idx.truncate(1);
+        }
         let only = ctx.param("only", 999);
         if only < n {
             idx = vec![only];
         }
-        let iters = rng.range(1, 4);
+        let iters = if solo { 1 } else { rng.range(1, 4) };
         let ext = force_ext || allow_extraction && force.is_empty() && rng.chance(1, 3);
         let helper = rng.chance(1, 2);
         ctx.emit(exec_rw(start, idx, iters, ext, helper, bad));
